@@ -372,6 +372,7 @@ LEVEL_TEXT = ('Theorems in coq/Props/C16.v prove, for all columns, all in-range 
               '(offsets = prefix sums, values = concatenated CSV-joined entries, data read back = entries), that every entry '
               'parses back to the span\'s non-empty strings, and that the driver as found is wrong from the third batch on; '
               'the model is tied to /repo by running the extracted model and the real Session.apply_spans_concat on the '
-              'same generated cases.')
+              'same generated cases. Whole column: for a partition of the rows the parsed-back entries laid end to end are exactly '
+              'the non-empty strings in order (concat_partition_complete); one entry per span (concat_entry_count).')
 LEVEL_NOTE = ('Trusted: Coq kernel, extraction, harness. Field storage (h5py / MemoryFieldArray append) is modelled as list '
               'append, not verified. numba code generation is trusted.')
